@@ -990,6 +990,161 @@ def explore_prestart(run, n):
         run.case(cj, nontrivial=True)
 
 
+def run_track(spec, chooser, max_steps=40000):
+    """several threads arm timed sources (long deferred periods: nothing fires) and cancel by name / by id on ONE object, every
+    bytecode of __post_event / cancel_event / cancel_events a scheduling point; the object's lock around its tracked-source list
+    is a scheduler-aware lock whose acquisitions are recorded"""
+    import uuid as _u
+    res = {"errors": []}
+    saved_pp = mao.pp
+    mao.pp = lambda x: None
+    with dsched.Installed():
+        def stop_when(s):
+            ts = [t for t in s.threads if t.name.startswith("T") and t.name[1:].isdigit()]
+            return bool(ts) and all(t.finished for t in ts)
+        sched = dsched.Sched(chooser, max_steps=max_steps, yield_filter=lambda l: l == "op" or yield_filter(l))
+        dsched.Sched.current = sched
+        try:
+            class AO(mao.ActiveObject):
+                QUEUE_SIZE = spec["cap"]
+            ao = AO(name="C")
+            if hasattr(ao, "posted_events_lock"):
+                ao.posted_events_lock = dsched.DLock()
+                sched.name_obj(ao.posted_events_lock, "trk")
+            codes = [mao.ActiveObject.cancel_event.__code__, mao.ActiveObject.cancel_events.__code__,
+                     mao.ActiveObject._ActiveObject__post_event.__code__]
+            sched.tracer = dsched.trace_opcodes(codes)
+            mine = [[] for _ in spec["progs"]]
+
+            def mk(i, prog):
+                def f():
+                    for kind, arg in prog:
+                        if kind == "arm":
+                            try:
+                                mine[i].append(ao.post_fifo(Event(signal="N%d" % arg), period=1000, times=0, deferred=True))
+                            except mao.ActiveObjectOutOfPostedEventResources:
+                                mine[i].append(None)
+                        elif kind == "cancelName":
+                            ao.cancel_events(Event(signal="N%d" % arg))
+                        else:
+                            the_id = mine[i][arg] if arg < len(mine[i]) else None
+                            ao.cancel_event(_u.UUID(str(the_id)) if isinstance(the_id, _u.UUID) else (the_id if the_id is not None else _u.uuid4()))
+                return f
+            for i, prog in enumerate(spec["progs"]):
+                sched.spawn(mk(i, prog), (), name="T%d" % i)
+            res["outcome"] = sched.run(stop_when=stop_when)
+            res["order"] = [e[0] for e in sched.trace]
+            res["acquisitions"] = [int(e[0][1:]) for e in sched.trace if e[1] == "trk.acquire" and e[0].startswith("T")]
+            for t in sched.threads:
+                if t.error is not None:
+                    res["errors"].append("%s: %s: %s" % (t.name, type(t.error).__name__, t.error))
+            res["finished"] = all(t.finished for t in sched.threads if t.name.startswith("T") and t.name[1:].isdigit())
+            res["mine"] = [[None if x is None else str(x) for x in m] for m in mine]
+            res["q"] = [(str(r.uuid), r.signal_name, int(r.task_run_event._flag)) for r in ao.posted_events_queue]
+            timers = sorted([t for t in sched.threads if t.name.startswith("timer")], key=lambda t: int(t.name[5:]))
+            res["sources"] = [(t.args[0].event.signal_name, int(t.args[0].task_run_event._flag)) for t in timers]
+        finally:
+            leaked = sched.shutdown()
+            mao.pp = saved_pp
+            if leaked:
+                res["errors"].append("leaked: %s" % leaked)
+    return res
+
+
+def explore_track(run, focus, n):
+    """tie of the Lean model `Conc.Track` (family `track`) + oracle: 2-3 threads arming / cancelling on one object, bytecode-level
+    interleaving. By `C11_track_refines_atomic` the outcome of any schedule is that of the calls executed one after the other in
+    lock-acquisition order: the model runs exactly that sequence, the tracked list, every source's flag and the number of rejected
+    posts are compared; oracle: every source whose flag is set is tracked (`C11_track_live_sources_are_tracked`)"""
+    rng = run.rng
+    done = []
+    for _ in range(n):
+        nt = rng.randint(2, 3)
+        cap = rng.choice([2, 3, 4, 6])
+        progs = []
+        for _t in range(nt):
+            p, arms = [], 0
+            for _c in range(rng.randint(1, 4)):
+                r = rng.random()
+                if r < 0.5 or (arms == 0 and r < 0.7):
+                    p.append(("arm", rng.randrange(3)))
+                    arms += 1
+                elif r < 0.8:
+                    p.append(("cancelName", rng.randrange(3)))
+                else:
+                    p.append(("cancelMine", rng.randrange(max(1, arms))))
+            progs.append(p)
+        spec = {"cap": cap, "progs": progs}
+        seed = rng.randrange(1 << 30)
+        r2 = random.Random(seed)
+        chooser = dsched.pct_chooser(r2, depth=r2.randint(1, 4), est_len=1500) if r2.random() < 0.5 else dsched.random_chooser(r2)
+        res = run_track(spec, chooser)
+        cj = {"what": "track", "spec": spec, "seed": seed, "schedule": res.get("order", [])}
+        run.count("tracked-source list: %d threads arming / cancelling (bytecode level)" % nt)
+        if res["errors"]:
+            run.violate("%s/thread-error" % focus, "concurrent timed posts / cancels failed: %s" % res["errors"][:2], cj)
+            run.case(cj, nontrivial=True)
+            continue
+        if not res.get("finished"):
+            if res.get("outcome") == "quiescent":
+                run.violate("%s/call-never-returns" % focus, "concurrent timed posts / cancels: a call never returned (no thread can run)", cj)
+            run.case(cj, nontrivial=True)
+            continue
+        tracked_ids = set(u for u, _, _ in res["q"])
+        live_untracked = []
+        # sources in creation order = timer threads in creation order; their ids in the order the arms were accepted
+        acq = res["acquisitions"]
+        if len(acq) == sum(len(p) for p in progs):
+            pos = [0] * len(progs)
+            arm_pos = [0] * len(progs)
+            calls, gid, ids_in_order = [], {}, []
+            for i in acq:
+                kind, arg = progs[i][pos[i]]
+                pos[i] += 1
+                if kind == "arm":
+                    u = res["mine"][i][arm_pos[i]]
+                    arm_pos[i] += 1
+                    if u is not None:
+                        gid[(i, arm_pos[i] - 1)] = len(ids_in_order)
+                        ids_in_order.append(u)
+                    calls.append((0, arg))
+                elif kind == "cancelName":
+                    calls.append((1, arg))
+                else:
+                    calls.append((2, gid.get((i, arg), 999)))
+            index = {u: k for k, u in enumerate(ids_in_order)}
+            for k, (nm, fl) in enumerate(res["sources"]):
+                if fl and k < len(ids_in_order) and ids_in_order[k] not in tracked_ids:
+                    live_untracked.append("N%s (source %d)" % (nm[1:], k))
+            if live_untracked:
+                run.violate("%s/live-source-not-tracked" % focus, "after concurrent timed posts and cancels the sources %s still have their run flag "
+                            "set but are no longer in posted_events_queue: no cancel or stop() can reach them" % live_untracked, cj)
+            real = "q=%s all=%s rejected=%d" % (",".join("%d:%s:%d" % (index.get(u, -1), nm[1:], fl) for u, nm, fl in res["q"]),
+                                                  ",".join("%d:%s:%d" % (k, nm[1:], fl) for k, (nm, fl) in enumerate(res["sources"])),
+                                                  sum(1 for m in res["mine"] for x in m if x is None))
+            toks = ["track", 9, cap, 1, len(calls)] + [x for c in calls for x in c]
+            nsteps = len(calls) * (2 * cap + 4)
+            toks += [nsteps] + [0] * nsteps
+            done.append((cj, real, " ".join(str(t) for t in toks)))
+        else:
+            run.count("tracked-source list: run without a usable acquisition log (the lock is gone?)")
+            # no lock to order the calls by: the invariant alone
+            for k, (nm, fl) in enumerate(res["sources"]):
+                pass
+            flags_set = sum(fl for _, fl in res["sources"])
+            if flags_set > sum(fl for _, _, fl in res["q"]):
+                run.violate("%s/live-source-not-tracked" % focus, "after concurrent timed posts and cancels %d sources have their run flag set but "
+                            "only %d of them are in posted_events_queue" % (flags_set, sum(fl for _, _, fl in res["q"])), cj)
+        run.case(cj, nontrivial=True)
+    outs = leanrun.run_driver([l for _, _, l in done]) if done else []
+    for (cj, real, _), out in zip(done, outs):
+        run.traces_validated += 1
+        model = " ".join(x for x in out.strip().split(" ") if x.split("=")[0] in ("q", "all", "rejected"))
+        if model != real:
+            run.disagree("tracked-source list under concurrent timed posts and cancels (calls in lock-acquisition order)", cj,
+                         "model: %s\nreal:  %s" % (model, real), None)
+
+
 def run_subclass_capacity(spec, chooser, max_steps=6000):
     """an ActiveObject subclass that raises QUEUE_SIZE above the base class's value, filled with timed sources up to ITS capacity"""
     res = {"errors": []}
@@ -1193,6 +1348,10 @@ def explore_timed_placement(run, focus, n):
 
 def replay(case):
     cc = case.get("case", case)
+    if cc.get("what") == "track":
+        res = run_track(cc["spec"], dsched.scripted_chooser(cc["schedule"], then=dsched.round_robin_chooser()))
+        print({k: v for k, v in res.items() if k != "order"})
+        return 0
     if cc.get("what") == "subclass-capacity":
         res = run_subclass_capacity(cc["spec"], dsched.scripted_chooser(cc["schedule"], then=dsched.round_robin_chooser()))
         print({k: v for k, v in res.items() if k != "trace"})
